@@ -603,11 +603,33 @@ func ruleTL(c *Ctx) {
 						if k, isK := constInt(delta); isK {
 							// i += 1 needs i < len(buf)
 							okOne := false
-							for _, cmp := range cmpFactsAt(b) {
-								if cmp.Op == token.LSS && isCurLoad(cmp.X) {
-									if lc, isC := cmp.Y.(*ssa.Call); isC && isBuiltinCall(lc, "len") && strings.HasSuffix(accessPath(lc.Call.Args[0]), "->"+bufF+")") {
-										okOne = true
+							isLenBuf := func(v ssa.Value) bool {
+								lc, isC := v.(*ssa.Call)
+								return isC && isBuiltinCall(lc, "len") && strings.HasSuffix(accessPath(lc.Call.Args[0]), "->"+bufF+")")
+							}
+							// left: len(buf) - cursor, written out or through a module method that returns exactly that
+							var isLeft func(v ssa.Value, d int) bool
+							isLeft = func(v ssa.Value, d int) bool {
+								if bo, ok := v.(*ssa.BinOp); ok && bo.Op == token.SUB && isLenBuf(bo.X) {
+									ld, ok := bo.Y.(*ssa.UnOp)
+									return ok && ld.Op == token.MUL && strings.HasSuffix(accessPath(ld.X), "->"+cur)
+								}
+								if call, ok := v.(*ssa.Call); ok && d < 2 {
+									h := call.Call.StaticCallee()
+									if h != nil && P.isModuleFunc(h) && len(h.Blocks) == 1 && h.Signature.Recv() != nil && typeKey(h.Signature.Recv().Type()) == "*avro.ReadBuf" && len(call.Call.Args) == 1 && accessPath(call.Call.Args[0]) == accessPath(st.Addr.(*ssa.FieldAddr).X) {
+										rs := returnsOf(h)
+										return len(rs) == 1 && isLeft(resolvedResults(rs[0])[0], d+1)
 									}
+								}
+								return false
+							}
+							for _, cmp := range cmpFactsAt(b) {
+								if cmp.Op == token.LSS && isCurLoad(cmp.X) && isLenBuf(cmp.Y) {
+									okOne = true
+								}
+								// bytes left > 0  /  bytes left >= 1
+								if z, isK := constInt(cmp.Y); isK && isLeft(cmp.X, 0) && (cmp.Op == token.GTR && z == 0 || cmp.Op == token.GEQ && z == 1) {
+									okOne = true
 								}
 							}
 							c.Check(k == 1 && okOne, key, pos, "incremented by one where it is known to be below len(buf)", fmt.Sprintf("the cursor is advanced by the constant %d without a dominating test that it stays within the buffer", k))
